@@ -224,8 +224,7 @@ Proof.
   - destruct (next_serial s) as [s1 k] eqn:En. destruct (deliver_user s1 t (a_tok a) (UProbe n k)) as [s2 o2] eqn:E.
     intros H; inversion H; subst. assert (Q1 : qk s s1) by (change s1 with (fst (s1, k)); rewrite <- En; apply qk_next_serial).
     eapply qk_trans; [exact Q1|eapply qk_deliver_user; [eapply RI_qk; eassumption|exact E]].
-  - destruct (snd =? rNone); [intros H; inversion H; subst; apply qk_refl|].
-    destruct (next_serial s) as [s1 k] eqn:En. destruct (deliver_user s1 snd (a_tok a) (UProbe n k)) as [s2 o2] eqn:E.
+  - destruct (next_serial s) as [s1 k] eqn:En. destruct (deliver_user s1 snd (a_tok a) (UProbe n k)) as [s2 o2] eqn:E.
     intros H; inversion H; subst. assert (Q1 : qk s s1) by (change s1 with (fst (s1, k)); rewrite <- En; apply qk_next_serial).
     eapply qk_trans; [exact Q1|eapply qk_deliver_user; [eapply RI_qk; eassumption|exact E]].
   - destruct (next_serial s) as [s1 k] eqn:En. destruct (send_each s1 (a_tok a) (a_children a) n k) as [s2 o2] eqn:E.
